@@ -339,4 +339,205 @@ theorem decIsKey_satisfiable (k : Int) (hk : k.natAbs / 2 ^ 52 < 2047) : ∃ d :
     obtain ⟨d, hd, _⟩ := pos n (by omega) (by simpa using hk)
     exact ⟨d, hd⟩
 
+
+def Mof (n : Nat) : Nat := if n / 2 ^ 52 = 0 then n % 2 ^ 52 else 2 ^ 52 + n % 2 ^ 52
+def Eof (n : Nat) : Int := if n / 2 ^ 52 = 0 then -1074 else ((n / 2 ^ 52 : Nat) : Int) - 1075
+def upC (d : Dec) (n : Nat) : Ordering := cmpScaled (2 * Mof n + 1) (Eof n - 1) d.mant d.exp
+def loC (d : Dec) (n : Nat) : Ordering :=
+  if n % 2 ^ 52 = 0 ∧ n / 2 ^ 52 > 1 then cmpScaled (4 * Mof n - 1) (Eof n - 2) d.mant d.exp
+  else cmpScaled (2 * Mof n - 1) (Eof n - 1) d.mant d.exp
+
+theorem decIsKey_pos' (d : Dec) (n : Nat) (hn : 0 < n) (he : n / 2 ^ 52 < 2047) :
+    decIsKey d (n : Int) = ((d.neg == false) && (upC d n == .gt || (upC d n == .eq && Mof n % 2 == 0)) &&
+      (loC d n == .lt || (loC d n == .eq && Mof n % 2 == 0))) := by
+  rw [decIsKey_pos d n hn he]; rfl
+
+theorem cmpScaled_strict_mono {A A' : Nat} (a : Int) (m : Nat) (x : Int) (h : A < A')
+    (hg : cmpScaled A a m x ≠ .lt) : cmpScaled A' a m x = .gt := by
+  unfold cmpScaled at *
+  simp only [Nat.compare_eq_gt, ne_eq, Nat.compare_eq_lt] at *
+  have hP : 0 < 2 ^ a.toNat * 10 ^ (-x).toNat := Nat.mul_pos (Nat.pow_pos (by decide)) (Nat.pow_pos (by decide))
+  have : A * (2 ^ a.toNat * 10 ^ (-x).toNat) < A' * (2 ^ a.toNat * 10 ^ (-x).toNat) :=
+    Nat.mul_lt_mul_of_pos_right h hP
+  simp only [← Nat.mul_assoc] at this
+  omega
+
+theorem cmpScaled_double (A : Nat) (a : Int) (m : Nat) (x : Int) :
+    cmpScaled (2 * A) (a - 1) m x = cmpScaled A a m x := by
+  unfold cmpScaled
+  by_cases h : 1 ≤ a
+  · have h1 : a.toNat = (a - 1).toNat + 1 := by omega
+    have h2 : (-(a - 1)).toNat = 0 := by omega
+    have h3 : (-a).toNat = 0 := by omega
+    rw [h1, h2, h3, Nat.pow_succ]
+    congr 1
+    simp only [Nat.mul_assoc, Nat.mul_comm, Nat.mul_left_comm]
+  · have h1 : a.toNat = 0 := by omega
+    have h2 : (a - 1).toNat = 0 := by omega
+    have h3 : (-(a - 1)).toNat = (-a).toNat + 1 := by omega
+    rw [h1, h2, h3, Nat.pow_succ, Nat.pow_zero]
+    generalize 10 ^ (-x).toNat = P
+    generalize 10 ^ x.toNat = Q
+    generalize 2 ^ (-a).toNat = R
+    have e1 : 2 * A * 1 * P = 2 * (A * 1 * P) := by simp only [Nat.mul_assoc]
+    have e2 : m * Q * (R * 2) = 2 * (m * Q * R) := by
+      simp only [Nat.mul_assoc, Nat.mul_comm, Nat.mul_left_comm]
+    rw [e1, e2]
+    rcases Nat.lt_trichotomy (A * 1 * P) (m * Q * R) with hl | he | hg
+    · rw [Nat.compare_eq_lt.mpr hl, Nat.compare_eq_lt]; omega
+    · rw [he]; simp
+    · rw [Nat.compare_eq_gt.mpr hg, Nat.compare_eq_gt]; omega
+
+
+/-- the lower rounding boundary of `n+1` is the upper rounding boundary of `n` -/
+theorem loC_succ (d : Dec) (n : Nat) (hn : 0 < n) : loC d (n + 1) = upC d n := by
+  unfold loC upC Mof Eof
+  by_cases hm : n % 2 ^ 52 + 1 < 2 ^ 52
+  · have e1 : (n + 1) / 2 ^ 52 = n / 2 ^ 52 := by omega
+    have m1 : (n + 1) % 2 ^ 52 = n % 2 ^ 52 + 1 := by omega
+    have hne : ¬ (n % 2 ^ 52 + 1 = 0 ∧ n / 2 ^ 52 > 1) := by omega
+    simp only [e1, m1, hne, if_false]
+    by_cases hz : n / 2 ^ 52 = 0
+    · simp only [hz, if_true]
+      have hM : 2 * (n % 2 ^ 52 + 1) - 1 = 2 * (n % 2 ^ 52) + 1 := by omega
+      rw [hM]
+    · simp only [hz, if_false]
+      have hM : 2 * (2 ^ 52 + (n % 2 ^ 52 + 1)) - 1 = 2 * (2 ^ 52 + n % 2 ^ 52) + 1 := by omega
+      rw [hM]
+  · have e1 : (n + 1) / 2 ^ 52 = n / 2 ^ 52 + 1 := by omega
+    have m1 : (n + 1) % 2 ^ 52 = 0 := by omega
+    have m0 : n % 2 ^ 52 = 2 ^ 52 - 1 := by omega
+    have hne : ¬ (n / 2 ^ 52 + 1 = 0) := by omega
+    simp only [e1, m1, m0, hne, if_false]
+    by_cases hz : n / 2 ^ 52 = 0
+    · have hgt : ¬ (True ∧ 0 + 1 > 1) := by omega
+      simp only [hz, if_true, hgt, if_false]
+      have hE : ((0 + 1 : Nat) : Int) - 1075 - 1 = -1074 - 1 := by omega
+      have hM : 2 * (2 ^ 52 + 0) - 1 = 2 * (2 ^ 52 - 1) + 1 := by omega
+      rw [hE, hM]
+    · have hgt : (True ∧ n / 2 ^ 52 + 1 > 1) := ⟨trivial, by omega⟩
+      simp only [hz, if_false, hgt]
+      have hE : ((n / 2 ^ 52 + 1 : Nat) : Int) - 1075 - 2 = ((n / 2 ^ 52 : Nat) : Int) - 1075 - 1 := by omega
+      have hM : 4 * (2 ^ 52 + 0) - 1 = 2 * (2 ^ 52 + (2 ^ 52 - 1)) + 1 := by omega
+      rw [hE, hM]
+      simp
+
+/-- the upper rounding boundaries are strictly increasing in the key -/
+theorem upC_succ (d : Dec) (n : Nat) (h : upC d n ≠ .lt) : upC d (n + 1) = .gt := by
+  unfold upC Mof Eof at *
+  by_cases hm : n % 2 ^ 52 + 1 < 2 ^ 52
+  · have e1 : (n + 1) / 2 ^ 52 = n / 2 ^ 52 := by omega
+    have m1 : (n + 1) % 2 ^ 52 = n % 2 ^ 52 + 1 := by omega
+    simp only [e1, m1]
+    refine cmpScaled_strict_mono _ _ _ ?_ h
+    split <;> omega
+  · have e1 : (n + 1) / 2 ^ 52 = n / 2 ^ 52 + 1 := by omega
+    have m1 : (n + 1) % 2 ^ 52 = 0 := by omega
+    have m0 : n % 2 ^ 52 = 2 ^ 52 - 1 := by omega
+    have hne : ¬ (n / 2 ^ 52 + 1 = 0) := by omega
+    simp only [e1, m1, m0, hne, if_false] at h ⊢
+    by_cases hz : n / 2 ^ 52 = 0
+    · simp only [hz, if_true] at h ⊢
+      have hE : ((0 + 1 : Nat) : Int) - 1075 - 1 = -1074 - 1 := by omega
+      rw [hE]
+      exact cmpScaled_strict_mono _ _ _ (by omega) h
+    · simp only [hz, if_false] at h ⊢
+      have hE : ((n / 2 ^ 52 + 1 : Nat) : Int) - 1075 - 1 = (((n / 2 ^ 52 : Nat) : Int) - 1075 - 1 + 1) := by omega
+      rw [hE, ← cmpScaled_double, Int.add_sub_cancel]
+      exact cmpScaled_strict_mono _ _ _ (by omega) h
+
+theorem upC_add (d : Dec) (n : Nat) (h : upC d n ≠ .lt) (j : Nat) : upC d (n + (j + 1)) = .gt := by
+  induction j with
+  | zero => exact upC_succ d n h
+  | succ j ih => exact upC_succ d (n + (j + 1)) (by rw [ih]; decide)
+
+
+theorem decIsKey_up_ne_lt (d : Dec) (n : Nat) (hn : 0 < n) (he : n / 2 ^ 52 < 2047)
+    (h : decIsKey d (n : Int) = true) : upC d n ≠ .lt := by
+  rw [decIsKey_pos' d n hn he] at h
+  intro hc
+  simp [hc] at h
+
+theorem decIsKey_lo_ne_gt (d : Dec) (n : Nat) (hn : 0 < n) (he : n / 2 ^ 52 < 2047)
+    (h : decIsKey d (n : Int) = true) : loC d n ≠ .gt := by
+  rw [decIsKey_pos' d n hn he] at h
+  intro hc
+  simp [hc] at h
+
+/-- two different positive keys are never denoted by one literal -/
+theorem decIsKey_functional_pos (d : Dec) (n n' : Nat) (hn : 0 < n) (hlt : n < n')
+    (he' : n' / 2 ^ 52 < 2047) :
+    ¬ (decIsKey d (n : Int) = true ∧ decIsKey d (n' : Int) = true) := by
+  intro ⟨h1, h2⟩
+  have he : n / 2 ^ 52 < 2047 := by
+    have : n / 2 ^ 52 ≤ n' / 2 ^ 52 := Nat.div_le_div_right (by omega)
+    omega
+  by_cases hadj : n' = n + 1
+  · subst hadj
+    exact decIsKey_adjacent_excl_pos d n hn he' ⟨h1, h2⟩
+  · obtain ⟨j, hj⟩ : ∃ j, n' = (n + (j + 1)) + 1 := ⟨n' - n - 2, by omega⟩
+    subst hj
+    have hup := upC_add d n (decIsKey_up_ne_lt d n hn he h1) j
+    have hlo := decIsKey_lo_ne_gt d _ (by omega) he' h2
+    rw [loC_succ d _ (by omega)] at hlo
+    exact hlo hup
+
+
+theorem decIsKey_lt_excl (d : Dec) (k k' : Int) (hlt : k < k')
+    (hk : k.natAbs / 2 ^ 52 < 2047) (hk' : k'.natAbs / 2 ^ 52 < 2047) :
+    ¬ (decIsKey d k = true ∧ decIsKey d k' = true) := by
+  intro ⟨h1, h2⟩
+  rcases Int.lt_trichotomy k 0 with hneg | hz | hpos
+  · obtain ⟨a, ha⟩ : ∃ a : Nat, k = -(a : Int) := ⟨(-k).toNat, by omega⟩
+    subst ha
+    have ha0 : 0 < a := by omega
+    rw [decIsKey_neg d a ha0] at h1
+    rcases Int.lt_trichotomy k' 0 with hneg' | hz' | hpos'
+    · obtain ⟨b, hb⟩ : ∃ b : Nat, k' = -(b : Int) := ⟨(-k').toNat, by omega⟩
+      subst hb
+      have hb0 : 0 < b := by omega
+      rw [decIsKey_neg d b hb0] at h2
+      exact decIsKey_functional_pos _ b a hb0 (by omega) (by simpa using hk) ⟨h2, h1⟩
+    · subst hz'
+      rw [decIsKey_zero] at h2
+      rw [decIsKey_zero_mant_pos _ a ha0 (by simpa using h2)] at h1
+      exact absurd h1 (by simp)
+    · have s2 := decIsKey_sign d k' (by omega) h2
+      have s1 := decIsKey_sign _ (a : Int) (by omega) h1
+      have : decide (k' < 0) = false := by simpa using Int.le_of_lt hpos'
+      rw [this] at s2
+      have : decide ((a : Int) < 0) = false := by simp
+      rw [this] at s1
+      simp [s2] at s1
+  · subst hz
+    rw [decIsKey_zero] at h1
+    obtain ⟨b, hb⟩ : ∃ b : Nat, k' = (b : Int) := ⟨k'.toNat, by omega⟩
+    subst hb
+    rw [decIsKey_zero_mant_pos d b (by omega) (by simpa using h1)] at h2
+    exact absurd h2 (by simp)
+  · obtain ⟨a, ha⟩ : ∃ a : Nat, k = (a : Int) := ⟨k.toNat, by omega⟩
+    obtain ⟨b, hb⟩ : ∃ b : Nat, k' = (b : Int) := ⟨k'.toNat, by omega⟩
+    subst ha; subst hb
+    exact decIsKey_functional_pos d a b (by omega) (by omega) (by simpa using hk') ⟨h1, h2⟩
+
+/-- THE ORACLE IS A PARTIAL FUNCTION from number texts to order keys: a literal denotes at most one
+    finite key -/
+theorem decIsKey_functional (d : Dec) (k k' : Int)
+    (hk : k.natAbs / 2 ^ 52 < 2047) (hk' : k'.natAbs / 2 ^ 52 < 2047)
+    (h : decIsKey d k = true) (h' : decIsKey d k' = true) : k = k' := by
+  rcases Int.lt_trichotomy k k' with hlt | heq | hgt
+  · exact absurd ⟨h, h'⟩ (decIsKey_lt_excl d k k' hlt hk hk')
+  · exact heq
+  · exact absurd ⟨h', h⟩ (decIsKey_lt_excl d k' k hgt hk' hk)
+
+
+/-- … with no side condition: infinities and NaNs are never denoted at all -/
+theorem decIsKey_functional' (d : Dec) (k k' : Int)
+    (h : decIsKey d k = true) (h' : decIsKey d k' = true) : k = k' := by
+  by_cases hk : k.natAbs / 2 ^ 52 < 2047
+  · by_cases hk' : k'.natAbs / 2 ^ 52 < 2047
+    · exact decIsKey_functional d k k' hk hk' h h'
+    · rw [decIsKey_nonfinite d k' (Nat.le_of_not_lt hk')] at h'; exact absurd h' (by simp)
+  · rw [decIsKey_nonfinite d k (Nat.le_of_not_lt hk)] at h; exact absurd h (by simp)
+
 end Sod.Codec
